@@ -283,6 +283,9 @@ pub fn suite_c14(ctx: &mut Ctx) {
                     gcall(ctx, t, n, 0, "from_i64", "m", &[x]);
                 }
             }
+            // screening sweeps (selection only; see screen.rs)
+            let l2 = ctx.q(16, 21) as u32;
+            crate::screen::screen_generic_conv(ctx, t, n, l2);
             // fixed posit -> generic
             for a in 0..256u64 {
                 gcall(ctx, t, n, 0, "from_p8", "f", &[a]);
